@@ -187,8 +187,9 @@ class LNum(LBase):
 
 
 class LemmaJob:
-    def __init__(self, prop, lid, func, cases=None, abstract=False, points=None):
+    def __init__(self, prop, lid, func, cases=None, abstract=False, points=None, structured=None):
         self.prop, self.lid, self.func = prop, lid, func
+        self.structured = structured      # optional: vals -> iterable of (label, vals') - correlated points a random draw never hits
         self.cases = cases or [{}]
         self.base_id = f"{prop}/{lid}"
         self.abstract = abstract
@@ -217,7 +218,19 @@ class LemmaJob:
         vals = stored_from_env(ctx, env)
         Ln = LNum(vals, case)
         self.func(Ln)
-        return Ln.checked
+        n = Ln.checked
+        if self.structured is not None:
+            for slabel, v2 in self.structured(vals):
+                Ls = LNum(v2, case)
+                try:
+                    self.func(Ls)
+                except Fail as f:
+                    f.structured = (slabel, v2)
+                    raise
+                except (Reject, NL.OutsideDomain, ZeroDivisionError, ValueError, OverflowError):
+                    continue
+                n += Ls.checked
+        return n
 
     def run_case(self, case, res):
         label = ",".join(f"{k}:{v}" for k, v in case.items())
@@ -225,7 +238,12 @@ class LemmaJob:
         ctx = S.newctx()
         ctx.abstract_views = self.abstract
         Ls = LSym(case)
-        self.func(Ls)
+        escaped = None
+        try:
+            self.func(Ls)
+        except OutOfSubset as e:
+            # undecided - unless the numeric refuter below (real functions at seeded points of the precondition built so far) finds a failing input
+            escaped = e
         rng = random.Random(hash((SEED, self.base_id, label)) & 0xFFFFFFFF)
         npts, tries = 0, 0
         want = self.points or NPOINTS
@@ -244,9 +262,15 @@ class LemmaJob:
                 continue
             except Fail as f:
                 cx = dict(lemma=self.lid, case=case, inputs=_s(stored_from_env(ctx, env)), claim=f.name, got=_s(f.got), expected=_s(f.exp))
+                if getattr(f, "structured", None):
+                    cx["base_inputs"] = cx["inputs"]       # the correlated point is re-derived from these on replay (exact relationships)
+                    cx["inputs"] = _s(f.structured[1])
+                    cx["structured_point"] = f.structured[0]
                 res["obligations"].append(dict(id=f"{self.base_id}{suffix}/refuter", kind="refuter", status="refuted", t=0,
                                                by="numeric evaluation of the real functions (mpmath 60 digits)", counterexample=cx))
                 return "refuted"
+        if escaped is not None:
+            raise escaped
         if npts == 0:
             st, _ = PR.satisfiable(ctx, list(ctx.pre), 10000)
             if st == "unsat":
